@@ -22,7 +22,14 @@ Record case := mkCase {
   c_impl_schema : schema;                     (* read off the implementation: supertype chains, all_features IN THE API'S ORDER *)
   c_scen_schema : option schema;              (* harness/scen.schema_of on the declarations of the history (what every heap-level
                                                  check hands to its model); None: the history is outside its domain D1/D2 *)
-  c_scen_exact : bool                         (* the history has the shape scen.build_ts executes (D3): feature order compared too *)
+  c_scen_exact : bool;                        (* the history has the shape scen.build_ts executes (D3): feature order compared too *)
+  (* Merging as a history: merge_typesystems(ts1, ..., tsk) of type systems that declare every shared type with the same
+     supertype performs, on a fresh TypeSystem(), the create_type / create_feature operations of its arguments in the order
+     of the arguments (a type as soon as its supertype exists); the implementation reports one outcome for the whole
+     history - the merged type system or ValueError.  Some ok: c_ops is that history, c_out is not observed, ok = no
+     ValueError; the merged type system (or, with a base type system, the one load_cas_from_json returns) answers the
+     queries.  None: an ordinary history, every outcome observed. *)
+  c_merge : option bool
 }.
 
 (* short constructors and constants for the generated case files (harness/bridge.py uses an abbreviation only where the
@@ -50,11 +57,15 @@ Definition oofeat_eqb (a b : option ofeat) : bool :=
   match a, b with None, None => true | Some x, Some y => ofeat_eqb x y | _, _ => false end.
 Definition accepts (ts : tsys) (n : string) (kw : string) : bool := match ctor_accepts ts n kw with Ok b => b | _ => false end.
 
+Definition all_ok (l : list opres) : bool := forallb (fun o => opres_eqb o ROk) l.
+
 Definition check_case (c : case) : bool :=
   let '(ts, out) := run_ts (c_ops c) init_ts in
   let '(tsm, outm) := run_ts_mech (c_ops c) init_ts in
-  list_eqb opres_eqb out (c_out c)
-  && list_eqb opres_eqb outm (c_out c)
+  (match c_merge c with
+   | None => list_eqb opres_eqb out (c_out c) && list_eqb opres_eqb outm (c_out c)
+   | Some ok => Bool.eqb (all_ok out) ok && Bool.eqb (all_ok outm) ok      (* refused <-> some definition of the history is *)
+   end)
   && tsys_same ts tsm
   && forallb (registered ts) (c_types c)
   && list_eqb ofeat_set_eqb (map (fun n => map ofeat_of (all_features (ty_of ts n))) (c_types c)) (c_tables c)
@@ -62,7 +73,10 @@ Definition check_case (c : case) : bool :=
        (map (fun n => map (fun f => option_map ofeat_of (get_feature (ty_of ts n) f)) (c_fnames c)) (c_types c)) (c_getf c)
   && nlist_eqb (map (fun n => bits (map (accepts ts n) (c_kws c))) (c_types c)) (c_accept c)
   (* flatten (model) = the implementation's chains and ordered effective features = scen.schema_of *)
-  && schema_eqb (flatten_on ts (c_types c)) (c_impl_schema c)
+  && (match c_merge c with
+      | None => schema_eqb (flatten_on ts (c_types c)) (c_impl_schema c)
+      | Some _ => schema_eqb_unordered (flatten_on ts (c_types c)) (c_impl_schema c)   (* the order of merged features is C13's *)
+      end)
   && match c_scen_schema c with
      | None => true
      | Some s => if c_scen_exact c then schema_eqb (flatten_on ts (c_types c)) s
